@@ -391,7 +391,17 @@ pub fn gen_cfg(prop: &str, seed: u64) -> RunCfg {
                     ops.push(Op::SetTime(P::new(&t), f, g.rng.range(0, 2_000_000_000) as i64, 0));
                 }
             }
-            base_cfg(prop, "contract", seed, &mut g, vec![spec], ops)
+            let nn = spec.node_count();
+            let mut cfg = base_cfg(prop, "contract", seed, &mut g, vec![spec], ops);
+            if g.rng.pct(35) && !cfg.ops.is_empty() {
+                // every failing call: also those that fail because one underlying call failed
+                let kinds = ["Other", "PermissionDenied", "StorageFull"];
+                // bias towards composites and towards the end of the history (more state)
+                let comp: Vec<usize> = cfg.ops.iter().enumerate().filter(|(_, o)| matches!(o, Op::CreateDirAll(_) | Op::RemoveDirAll(_) | Op::CopyDir(..) | Op::MoveDir(..) | Op::CopyFile(..) | Op::MoveFile(..) | Op::WalkDir(_) | Op::ReadToString(_))).map(|(i, _)| i).collect();
+                let at = if !comp.is_empty() && g.rng.pct(60) { comp[g.rng.below(comp.len())] } else { g.rng.below(cfg.ops.len()) };
+                cfg.fault = Some(FaultPlan { op_index: at, k: g.rng.range(1, 16) as u64, sticky: g.rng.pct(25), kind: kinds[g.rng.below(kinds.len())].into(), nodes: if g.rng.pct(60) { u64::MAX } else { 1u64 << g.rng.below(nn) } });
+            }
+            cfg
         }
         "C02" => {
             g.size_profile = 1;
@@ -1279,7 +1289,7 @@ pub fn gen_conc(prop: &str, seed: u64) -> crate::conc::ConcCfg {
                 budget -= 1;
             }
         }
-        return ConcCfg { property: prop.into(), seed, spec: Spec::Mem { pre }, program, n_schedules: 60, schedule: None, sched_fs: false };
+        return ConcCfg { property: prop.into(), seed, spec: Spec::Mem { pre }, program, n_schedules: 60, schedule: None, sched_fs: false, setup: vec![] };
     }
     // C17
     let names = ["a", "b", "c"];
@@ -1290,7 +1300,13 @@ pub fn gen_conc(prop: &str, seed: u64) -> crate::conc::ConcCfg {
         3 => Spec::Ovl { layers: vec![Spec::Mem { pre: vec![] }] },
         4 => Spec::Phys { pre: vec![] },
         5 => Spec::Alt { inner: Box::new(Spec::Phys { pre: vec![] }), p: "/ALTROOT_p".into() },
-        _ => Spec::Ovl { layers: vec![Spec::Phys { pre: vec![] }, Spec::Mem { pre: vec![] }] },
+        _ => {
+            if rng.pct(50) {
+                Spec::Ovl { layers: vec![Spec::Phys { pre: vec![] }, Spec::Mem { pre: vec![] }] }
+            } else {
+                Spec::Ovl { layers: vec![Spec::Mem { pre: vec![] }, Spec::Mem { pre: vec![] }, Spec::Mem { pre: vec![] }] }
+            }
+        }
     };
     let mut spec = spec;
     let nthreads = rng.range(2, 4);
@@ -1324,8 +1340,38 @@ pub fn gen_conc(prop: &str, seed: u64) -> crate::conc::ConcCfg {
         }
         push_pre(&mut spec, pre);
     }
+    // an earlier, finished history: directories of the chain that live in a lower layer were
+    // removed through the overlay (deletion markers exist where the threads now create)
+    let mut setup = vec![];
+    if let Spec::Ovl { layers } = &mut spec {
+        if layers.len() >= 2 && rng.pct(55) {
+            let d = rng.range(1, 4);
+            let mut p = String::new();
+            let mut pre = vec![];
+            for c in chain.iter().take(d) {
+                p.push('/');
+                p.push_str(c);
+                pre.push(Pre { path: p.clone(), file: None });
+            }
+            let li = layers.len() - 1;
+            push_pre(&mut layers[li], pre.clone());
+            // remove from some depth downwards: remove_dir_all of a prefix, or the leaves one by one
+            let from = rng.below(d);
+            if rng.pct(60) {
+                setup.push(Op::RemoveDirAll(P::new(&pre[from].path)));
+            } else {
+                for e in pre.iter().skip(from).rev() {
+                    setup.push(Op::RemoveDir(P::new(&e.path)));
+                }
+            }
+            if rng.pct(25) {
+                // and partly re-created, sequentially, before the threads start
+                setup.push(Op::CreateDir(P::new(&pre[from].path)));
+            }
+        }
+    }
     let sched_fs = spec.has_phys() || rng.pct(30);
-    ConcCfg { property: prop.into(), seed, spec, program, n_schedules: 60, schedule: None, sched_fs }
+    ConcCfg { property: prop.into(), seed, spec, program, n_schedules: 60, schedule: None, sched_fs, setup }
 }
 
 fn push_pre(spec: &mut Spec, pre: Vec<crate::stack::Pre>) {
@@ -1426,9 +1472,22 @@ pub fn evidence_meta(prop: &str) -> (&'static str, String, Value, Vec<String>) {
         "seq" => "one evaluation = one seeded run: a generated backend stack (real MemoryFS/PhysicalFS(tmpfs)/AltrootFS/OverlayFS behind listing-order/recording/fault wrappers), generated initial contents and a model-aware operation history executed step by step with a full observable snapshot after every step; a run signature is the stack shape plus the sequence of (operation kind, outcome class); non-trivial = at least 3 state-changing successes and at least 1 demanded failure; distinct_nontrivial counts distinct signatures among non-trivial runs".to_string(),
         _ => "see DESIGN.md".to_string(),
     };
+    let mut real: Vec<&str> = vec!["vfs::VfsPath and all of src/path.rs", "MemoryFS", "PhysicalFS on a private tmpfs directory (real kernel)", "AltrootFS", "OverlayFS", "error.rs"];
+    let mut wrappers: Vec<&str> = vec!["SimFS (sorts + seed-permutes listings, records calls, injects faults/short I/O/EINTR, yields to the scheduler)"];
+    if matches!(prop, "C03" | "C05" | "C11" | "C13" | "C14") {
+        real.push("EmbeddedFS over /verif/fixtures/embedded (rust-embed, debug-embed)");
+    }
+    if matches!(prop, "C08" | "C10" | "C13" | "C15" | "C19" | "C20") {
+        real.push("async port: AsyncVfsPath and src/async_vfs/path.rs, AsyncMemoryFS, AsyncPhysicalFS, AsyncAltrootFS, AsyncOverlayFS (polled by the simulator's own executor; the C08/C19 mirrors enter a current-thread tokio runtime because the async physical time setters need one)");
+        wrappers.push("PendFS (async twin of SimFS: seeded Pending injection at every trait call and handle poll, k-th-call failure, recorder of mutating calls)");
+    }
+    if matches!(prop, "C16" | "C17") {
+        real.push("vfs::verif_hooks::RwLock (cfg feature verif-hooks): try_read/try_write loops that hand control to the simulator's scheduler; real threads, one runnable at a time");
+        wrappers.push("interposed libc mkdir/rmdir/unlink/rename (scheduling points in front of PhysicalFS syscalls)");
+    }
     let components = json!({
-        "real": ["vfs::VfsPath and all of src/path.rs", "MemoryFS", "PhysicalFS on a private tmpfs directory (real kernel)", "AltrootFS", "OverlayFS", "error.rs"],
-        "harness_wrappers_public_trait": ["SimFS (sorts + seed-permutes listings, records calls, injects faults/short I/O/EINTR, yields to the scheduler)"],
+        "real": real,
+        "harness_wrappers_public_trait": wrappers,
         "stubbed": [],
         "not_simulator_owned": ["SystemTime::now() inside MemoryFS (never compared or logged)"],
     });
